@@ -51,7 +51,7 @@ func proofMutants(r *rand.Rand, p []rH) (labels []string, out [][]rH) {
 }
 
 func runC03(c *mon.Ctx) {
-	T := c.Scale(100, 420)
+	T := c.Scale(100, 800)
 	gr := c.GlobalRng("records")
 	r := c.Rng
 	recs := genRecords(gr, T+1)
